@@ -863,8 +863,11 @@ type vf35Forge struct {
 	sha384  bool
 	client  vf35Client
 	refSeal bool // ticket sealed by the reference instead of Config.EncryptTicket
-	key     [32]byte
-	rseed   uint64
+	// ticketSuite != 0 (TLS <= 1.2): the state sealed INSIDE the ticket names this suite while the client's state names
+	// suite: the server resumes with the ticket's suite, which the client must not accept as a resumption of its session
+	ticketSuite uint16
+	key         [32]byte
+	rseed       uint64
 }
 
 type vf35Outcome struct {
@@ -892,6 +895,9 @@ func vf35RunForged(f vf35Forge) (o vf35Outcome, pan *vfPanic) {
 
 	// what the server will find in the ticket
 	sd := &vf35State{Version: f.version, CipherSuite: f.suite, CreatedAt: uint64(vfNow().Unix()), Secret: f.secret, EMS: f.ems}
+	if f.ticketSuite != 0 {
+		sd.CipherSuite = f.ticketSuite
+	}
 	var ticket []byte
 	if f.refSeal {
 		var iv [16]byte
@@ -1010,6 +1016,14 @@ func vf35JudgeForged(st *vfStats, t vfFataler, f vf35Forge) {
 	if resumedC != resumedS {
 		st.Violation(t, "forged session (%s): client DidResume=%v, server DidResume=%v", id, resumedC, resumedS)
 	}
+	if f.ticketSuite != 0 && f.ticketSuite != f.suite {
+		st.Class("forged:ticket-names-another-suite")
+		if resumedC {
+			st.Violation(t, "forged session (%s): the ticket names suite %#04x, the client's state %#04x; the client accepted the resumption (suite reported %#04x)", id, f.ticketSuite, f.suite, o.ccs.CipherSuite)
+		}
+		st.NonTrivial(fmt.Sprintf("fg-suite-mismatch:%s:%04x", id, f.ticketSuite))
+		return
+	}
 	if !resumedC {
 		if consistent {
 			// everything the server needs was on the wire and the state is self-consistent: this must resume
@@ -1110,6 +1124,18 @@ func vf35GenForge(rt *rapid.T) vf35Forge {
 	}
 	// all these clients offer extended_master_secret; a forged non-EMS session must then not be resumed
 	f.ems = rapid.IntRange(0, 4).Draw(rt, "ems") != 0
+	if rapid.IntRange(0, 4).Draw(rt, "ticket_other_suite") == 0 {
+		// another suite of the same key type (so that the server can use it) for the state inside the ticket
+		var others []uint16
+		for _, x := range cands {
+			if x.keyType == s.keyType && x.id != s.id {
+				others = append(others, x.id)
+			}
+		}
+		if len(others) > 0 {
+			f.ticketSuite = rapid.SampledFrom(others).Draw(rt, "ticket_suite")
+		}
+	}
 	return f
 }
 
@@ -1126,6 +1152,8 @@ func TestVerifC35ForgedResume(t *testing.T) {
 		{version: VersionTLS12, suite: TLS_ECDHE_ECDSA_WITH_AES_128_GCM_SHA256, keyType: "ecdsa", secret: ms, ems: false, client: vf35Clients12[0], key: key, rseed: 4},
 		{version: VersionTLS10, suite: TLS_ECDHE_ECDSA_WITH_AES_128_CBC_SHA, keyType: "ecdsa", secret: ms, ems: true, client: vf35Clients12[0], key: key, rseed: 5},
 		{version: VersionTLS11, suite: TLS_ECDHE_RSA_WITH_AES_256_CBC_SHA, keyType: "rsa", secret: ms, ems: true, client: vf35Clients12[0], key: key, rseed: 6, refSeal: true},
+		{version: VersionTLS12, suite: TLS_ECDHE_RSA_WITH_AES_128_GCM_SHA256, ticketSuite: TLS_ECDHE_RSA_WITH_AES_256_GCM_SHA384, keyType: "rsa", secret: ms, ems: true, client: vf35Clients12[0], key: key, rseed: 9},
+		{version: VersionTLS12, suite: TLS_ECDHE_ECDSA_WITH_AES_128_GCM_SHA256, ticketSuite: TLS_ECDHE_ECDSA_WITH_CHACHA20_POLY1305_SHA256, keyType: "ecdsa", secret: ms, ems: true, client: vf35Clients12[2], key: key, rseed: 10},
 		{version: VersionTLS13, suite: TLS_AES_128_GCM_SHA256, keyType: "ecdsa", secret: ms[:32], client: vf35Clients12[0], key: key, rseed: 7},
 		{version: VersionTLS13, suite: TLS_CHACHA20_POLY1305_SHA256, keyType: "ecdsa", secret: ms[:32], client: vf35Clients12[0], key: key, rseed: 8, refSeal: true},
 	} {
